@@ -1,3 +1,4 @@
+import Stackage.Model.Marshal
 import Stackage.Props.C15
 import Stackage.Props.C01
 import Stackage.Model.Options
@@ -62,6 +63,25 @@ theorem C03_insert_full (s : Stk) (x : Val) (i : Int) (k : Nat) (hwf : s.WF) (hk
     have : s.cfg.cap ≠ 0 := by omega
     simp only [this, ↓reduceIte, Option.some.injEq]; omega
   simp [this]
+
+/-- Marshal-into respects the capacity and keeps it: whatever the input (any `[]any` tree, well-formed or not), an
+initialised receiver afterwards holds at most `k` elements and its capacity is what it was -/
+theorem C03_marshal_into (interp : Nat → Val → Option Nat) (s : Stk) (input : List Val) (k : Nat) (hwf : s.WF)
+    (hk : s.cfg.cap = (k : Int) + 1) (hsm : SmallLen (s.xs.length + 1)) :
+    ∀ z, (marshalInto interp (some s) input).1 = some z → z.xs.length ≤ k ∧ z.cfg.cap = s.cfg.cap := by
+  intro z hz
+  have hpush : ∀ x, (s.push interp [x]).xs.length ≤ k ∧ (s.push interp [x]).cfg.cap = s.cfg.cap := by
+    intro x
+    obtain ⟨_, hc, hw⟩ := push_single interp s x hwf hsm
+    exact ⟨C03_bound _ hw k (by rw [hc, hk]), hc⟩
+  have hself : s.xs.length ≤ k ∧ s.cfg.cap = s.cfg.cap := ⟨C03_bound s hwf k hk, rfl⟩
+  unfold marshalInto at hz
+  cases input with
+  | nil => simp only [Option.some.injEq] at hz; rw [← hz]; exact hself
+  | cons a rest =>
+    simp only at hz
+    split at hz <;> simp only [Option.some.injEq] at hz <;> rw [← hz] <;>
+      first | exact hself | (split <;> first | exact hself | exact hpush _)
 
 /-- Transfer-into respects the destination's capacity -/
 theorem C03_transfer_into (interp : Nat → Val → Option Nat) (src dest : Stk) (k : Nat) (hd : dest.WF)
